@@ -147,6 +147,7 @@ class Sim:
         self.epoch = 0
         self.beh = scenario.get("beh", {})
         self.gv = scenario.get("gv", {})
+        self.gv_kind = scenario.get("gv_kind", {})
         self.sidx = scenario.get("sidx", {})  # cbid-prefix (program name) -> {value-key: state index}
         self.jc = {}
         self.machines = {}
@@ -270,7 +271,7 @@ class Sim:
             kind = g.get("kind", "bool")
             bits = v[epoch % len(v)]
         else:
-            kind = "bool"
+            kind = self.gv_kind.get(cbid, "bool")
             bits = g[epoch % len(g)]
         idx = 0
         sm = self.sidx.get(cbid.split("/", 1)[0])
@@ -282,7 +283,8 @@ class Sim:
         if kind == "bool":
             return bool(bit)
         # truthy / falsy values of other types (guards are compared on bool(value))
-        return (1, "x", [0], (None,))[bits % 4] if bit else (0, "", [], None)[bits % 4]
+        pick = (bits + epoch) % 5
+        return (3, "x", [0], (None,), 2.5)[pick] if bit else (0.0, "", [], None, ())[pick]
 
     def cur_epoch(self):
         e = getattr(self.tl, "epoch", None)
